@@ -4,7 +4,7 @@
    read (write_csv ts) in the reader model, for tables with zero or more rows and zero or more columns.  The same composition is, in
    addition, evaluated on every generated bundle by the correspondence check (Corr/C01.v). *)
 From Coq Require Import List Arith.
-From PdV Require Import Text TextProofs WriteProofs ParseTable RoundTrip RoundTripZero.
+From PdV Require Import Text TextProofs WriteProofs ParseTable DestsRoundTrip RoundTrip RoundTripZero.
 From PdV.Model Require Import WriteCsv Segment Reader.
 Import ListNotations.
 
@@ -72,6 +72,15 @@ Theorem C01_bundle_roundtrip_any :
     = (events_from sep 0 ts, FDone).
 Proof. exact bundle_roundtrip_any. Qed.
 Print Assumptions C01_bundle_roundtrip_any.
+
+(* The destinations line: non-empty names without whitespace, joined by single blanks, read back
+   as the same names in the same order (table_read_back states p_dests as the destinations of that
+   cell; this is what it evaluates to). *)
+Theorem C01_destinations_roundtrip :
+  forall ds : list str,
+    ds <> [] -> Forall dest_ok ds -> destinations (CStr (join [32%N] ds)) = ds.
+Proof. exact dests_roundtrip. Qed.
+Print Assumptions C01_destinations_roundtrip.
 
 (* non-vacuity: a transposed table with an empty string in a non-first text column keeps it *)
 Example C01_example :
